@@ -563,6 +563,20 @@ func vfGenTreeKey(t *rapid.T, r *vfTreeRun) uint64 {
 		}
 	case 7:
 		k = rapid.SampledFrom([]uint64{1, 2, math.MaxUint64 - 3, math.MaxUint64 - 2, math.MaxUint64 - 1}).Draw(t, "k")
+	case 10:
+		// a key that was used before and may have been deleted since (its slot can survive as a routing placeholder)
+		used := make([]uint64, 0, len(r.everUsed))
+		for u := range r.everUsed {
+			if _, live := r.model[u]; !live {
+				used = append(used, u)
+			}
+		}
+		sort.Slice(used, func(i, j int) bool { return used[i] < used[j] })
+		if len(used) > 0 {
+			k = used[rapid.IntRange(0, len(used)-1).Draw(t, "deadidx")]
+		} else {
+			k = rapid.Uint64Range(1, 64).Draw(t, "k")
+		}
 	case 8:
 		// spread: multiples of a large stride, so that neighbours fall between leaves
 		k = rapid.Uint64Range(1, 200).Draw(t, "k") * 1000003
